@@ -195,6 +195,22 @@ func Policies() *Prog {
 	)
 }
 
+// CtxSensitive returns a copy of p in which every module makes a context-sensitive host call (script.Body.CtxSensitive).
+func CtxSensitive(p *Prog) *Prog {
+	prog, err := Parse(p.Modules.Binaries[0].Content)
+	if err != nil {
+		panic(err)
+	}
+	for _, b := range prog.Modules {
+		b.CtxSensitive = true
+	}
+	mods := make([]*pbsubstreams.Module, len(p.Modules.Modules))
+	for i, m := range p.Modules.Modules {
+		mods[i] = proto.Clone(m).(*pbsubstreams.Module)
+	}
+	return &Prog{Name: p.Name + "~ctx", Modules: modgen.Modules(prog.Marshal(), mods...), Output: p.Output}
+}
+
 // WithFailAt returns a copy of p whose module mod fails deterministically at block n.
 func WithFailAt(p *Prog, mod string, n uint64) *Prog {
 	prog, err := Parse(p.Modules.Binaries[0].Content)
